@@ -411,6 +411,10 @@ impl Device {
     }
     /// the normal open path, reporting failures instead of panicking (crash recovery)
     pub async fn try_open(name: &str, dir: &Path, account_id: AccountId, server: Arc<Server>, db: bool, gate: Gate) -> Result<Device, String> {
+        Self::try_open_with(name, dir, account_id, server, db, gate, &[password()]).await
+    }
+    /// as try_open, with several candidate account passwords (an interrupted password change leaves either)
+    pub async fn try_open_with(name: &str, dir: &Path, account_id: AccountId, server: Arc<Server>, db: bool, gate: Gate, passwords: &[secrecy::SecretString]) -> Result<Device, String> {
         let cls = |stage: &str, e: &dyn std::fmt::Debug| -> String {
             let s: String = format!("{e:?}").chars().filter(|c| c.is_ascii_alphanumeric() || *c == '_' || *c == ':' || *c == '(').take(60).collect();
             format!("{stage}:{s}")
@@ -424,11 +428,19 @@ impl Device {
             Paths::scaffold(paths.documents_dir()).await.map_err(|e| cls("scaffold", &e))?;
             BackendTarget::FileSystem(paths.clone())
         };
-        let mut account = LocalAccount::new_unauthenticated(account_id, target).await.map_err(|e| cls("new", &e))?;
-        let key: sos_core::crypto::AccessKey = password().into();
-        account.sign_in(&key).await.map_err(|e| cls("sign_in", &e))?;
-        let _ = account.initialize_search_index().await;
-        Ok(Self::wrap(name, dir, account, server, gate))
+        let mut last = String::from("nopassword");
+        for pw in passwords {
+            let mut account = LocalAccount::new_unauthenticated(account_id, target.clone()).await.map_err(|e| cls("new", &e))?;
+            let key: sos_core::crypto::AccessKey = pw.clone().into();
+            match account.sign_in(&key).await {
+                Ok(_) => {
+                    let _ = account.initialize_search_index().await;
+                    return Ok(Self::wrap(name, dir, account, server, gate));
+                }
+                Err(e) => last = cls("sign_in", &e),
+            }
+        }
+        Err(last)
     }
     fn wrap(name: &str, dir: &Path, account: LocalAccount, server: Arc<Server>, gate: Gate) -> Device {
         let account_id = *account.account_id();
